@@ -4,6 +4,7 @@ import PyTrie.Model.BinDrv
 import PyTrie.Model.SmtDrv
 import PyTrie.Model.EncDrv
 import PyTrie.Model.SdbDrv
+import PyTrie.Model.ValDrv
 /-! `trie_model`: reads one command per line on stdin, writes one reply per line on stdout.
     A command is `<module>.<cmd> arg…`; unknown or ill-formed commands answer `bad-op`. -/
 open PyTrie
@@ -15,6 +16,7 @@ structure DrvSt where
   smt : SmtDrv.St := {}
   enc : EncDrv.St := {}
   sdb : SdbDrv.St := {}
+  val : ValDrv.St := {}
 
 def dispatch (st : DrvSt) (line : String) : DrvSt × String :=
   match (line.splitOn " ").filter (· ≠ "") with
@@ -27,6 +29,7 @@ def dispatch (st : DrvSt) (line : String) : DrvSt × String :=
     | ["smt", cmd] => let (s, out) := SmtDrv.step st.smt cmd args; ({ st with smt := s }, out)
     | ["enc", cmd] => let (s, out) := EncDrv.step st.enc cmd args; ({ st with enc := s }, out)
     | ["sdb", cmd] => let (s, out) := SdbDrv.step st.sdb cmd args; ({ st with sdb := s }, out)
+    | ["val", cmd] => let (s, out) := ValDrv.step st.val cmd args; ({ st with val := s }, out)
     | _ => (st, "bad-op")
 
 partial def loop (hin hout : IO.FS.Stream) (st : DrvSt) : IO Unit := do
